@@ -99,8 +99,10 @@ def random_jobs(ctx, prop, fns, count):
         A = rc.rand_input(rng, fn)
         n = len(A)
         job = dict(fn=fn, prop=prop, R0=A.tolist(), seed=rng.randrange(2 ** 31), src="random")
-        if rng.random() < 0.3:
-            job["dtype"] = "int"
+        if rng.random() < 0.4:
+            job["dtype"] = rng.choice(["int", "int32", "uint8", "float32"])
+        if rng.random() < 0.25:
+            job["layout"] = rng.choice(["F", "view"])
         if mask:
             B = np.zeros((n, n))
             mval = rng.choice([1, 1, 0.5, 0.25, -1, 3])      # any nonzero value forbids the cell
